@@ -1,10 +1,70 @@
-(** C10 — property theorems only (placeholder while the proofs are being developed). *)
+(** C10 — property theorems only.  Each is closed by [exact], and followed by [Print Assumptions].
+    Models: Contract/SchemaJson.v (JSON <-> bytes), Contract/CcSchemaCodec.v (schemas in binary form).
+    [L : leaves] are the abstract text codecs of account addresses, timestamps and durations: every
+    theorem holds for all of them. *)
+From Coq Require Import String.
 From Coq Require Import NArith ZArith List.
-From CB Require Import Contract.SchemaJson Contract.CcSchemaCodec.
+From CB Require Import Contract.SchemaJson Contract.SchemaJsonProofs Contract.CcSchemaCodec.
 Import ListNotations.
 Local Open Scope N_scope.
 
-Example model_runs :
-  run_from (TPair TU16 TBool) (JArr [JNum 258%Z; JBool true]) = Some [2; 1; 1].
-Proof. reflexivity. Qed.
-Print Assumptions model_runs.
+(** JSON -> bytes -> JSON is exactly the documented normalisation, for every schema type (no bound on
+    the nesting depth), every accepted JSON value, and with nothing left unread. *)
+Theorem json_roundtrip : forall (L : leaves) t j bs,
+  ty_wf t = true -> json_wf j = true ->
+  from_json L t j = Some bs ->
+  to_json L t bs = Some (normalize L t j, []).
+Proof. exact json_roundtrip_exact. Qed.
+Print Assumptions json_roundtrip.
+
+(** The same inside a larger buffer: exactly the value's own bytes are consumed. *)
+Theorem json_roundtrip_in_context : forall (L : leaves) t j bs rest,
+  ty_wf t = true -> json_wf j = true ->
+  from_json L t j = Some bs ->
+  to_json L t (bs ++ rest) = Some (normalize L t j, rest).
+Proof. exact json_roundtrip_rest. Qed.
+Print Assumptions json_roundtrip_in_context.
+
+(** Both directions are total functions: structural recursion on the schema type, no fuel, so for
+    every (type, bytes) and every (type, JSON) the result is a value or an error. *)
+Theorem to_json_total : forall (L : leaves) t bs,
+  to_json L t bs = None \/ exists j rest, to_json L t bs = Some (j, rest).
+Proof. exact (fun L t bs => match to_json L t bs as o return o = None \/ exists j rest, o = Some (j, rest) with
+                            | Some (j, rest) => or_intror (ex_intro _ j (ex_intro _ rest eq_refl))
+                            | None => or_introl eq_refl
+                            end). Qed.
+Print Assumptions to_json_total.
+
+Theorem from_json_total : forall (L : leaves) t j,
+  from_json L t j = None \/ exists bs, from_json L t j = Some bs.
+Proof. exact (fun L t j => match from_json L t j as o return o = None \/ exists bs, o = Some bs with
+                           | Some bs => or_intror (ex_intro _ bs eq_refl)
+                           | None => or_introl eq_refl
+                           end). Qed.
+Print Assumptions from_json_total.
+
+(** Non-vacuity: a type using most constructors, a well-formed JSON value it accepts in a
+    non-canonical spelling, its bytes and its normal form. *)
+Definition ex_ty : ty :=
+  TStruct (FNamed (NFcons (str_of "amount") TU128
+          (NFcons (str_of "who") (TEnum (Vcons (str_of "None") FNone (Vcons (str_of "Some") (FUnnamed (TScons TContractAddress TSnil)) Vnil)))
+          (NFcons (str_of "tags") (TMap SL8 (TILeb128 2) (TByteList SL16))
+          (NFcons (str_of "kind") (TTaggedEnum (TVcons 7 (str_of "A") FNone (TVcons 9 (str_of "B") (FUnnamed (TScons TBool TSnil)) TVnil)))
+           NFnil))))).
+Definition ex_json : json :=
+  JObj [(str_of "amount", JStr (str_of "+007"));
+        (str_of "who", JObj [(str_of "Some", JArr [JObj [(str_of "index", JNum 5%Z)]])]);
+        (str_of "tags", JArr [JArr [JStr (str_of "-64"); JStr (str_of "AbCd")]]);
+        (str_of "kind", JObj [(str_of "B", JArr [JBool true])])].
+Example json_roundtrip_nonvacuous :
+  ty_wf ex_ty = true /\ json_wf ex_json = true
+  /\ from_json stub_leaves ex_ty ex_json
+     = Some ([7; 0; 0; 0; 0; 0; 0; 0; 0; 0; 0; 0; 0; 0; 0; 0] ++ [1; 5; 0; 0; 0; 0; 0; 0; 0; 0; 0; 0; 0; 0; 0; 0; 0]
+             ++ [1; 64; 2; 0; 171; 205] ++ [9; 1])
+  /\ normalize stub_leaves ex_ty ex_json
+     = JObj [(str_of "amount", JStr (str_of "7"));
+             (str_of "who", JObj [(str_of "Some", JArr [JObj [(str_of "index", JNum 5%Z); (str_of "subindex", JNum 0%Z)]])]);
+             (str_of "tags", JArr [JArr [JStr (str_of "-64"); JStr (str_of "abcd")]]);
+             (str_of "kind", JObj [(str_of "B", JArr [JBool true])])].
+Proof. vm_compute. repeat split; reflexivity. Qed.
+Print Assumptions json_roundtrip_nonvacuous.
